@@ -4,6 +4,8 @@
   Core-only imports (no Mathlib) so that it links as a `lean_exe`.
 -/
 import RdfModel.Driver.NQ
+import RdfModel.Driver.Canon
+import RdfModel.Driver.RdfJson
 import RdfModel.Driver.Description
 import RdfModel.Driver.Dataset
 import RdfModel.Driver.Prefix
@@ -20,6 +22,8 @@ def dispatch (line : String) : String :=
         else if comp = "ds" then Driver.Dataset.handle op args
         else if comp = "desc" then Driver.Description.handle op args
         else if comp = "pm" then Driver.Prefix.handle op args
+        else if comp = "rj" then Driver.RdfJson.handle op args
+        else if comp = "canon" then Driver.Canon.handle op args
         else none
       r.getD "bad-op"
     | _ => "bad-op"
